@@ -52,6 +52,9 @@ func (c42Engine) WarmupCase(c *simrun.Case, i int) {
 	for ep := 0; ep < c42Endpoints; ep++ {
 		c.Ops = append(c.Ops, simrun.Op{C: ep + 1, K: "req", A: []int64{int64((ep + i) % c42Endpoints), int64(ep % len(c42Users)), int64(10*ep + 1 + i), int64(2 + i)}})
 	}
+	// (and the run-time-error path of the failing service, in both waves)
+	c.Ops = append(c.Ops, simrun.Op{C: c42Endpoints + 1, K: "req", A: []int64{7, 1, 5, 3, 0}}, simrun.Op{C: c42Endpoints + 2, K: "req", A: []int64{7, 2, 6, 6, 1}},
+		simrun.Op{C: c42Endpoints + 3, K: "req", A: []int64{0, 2, 7, 4, 1}})
 }
 
 // ---- generated stateless services (no package-level state)
@@ -198,7 +201,29 @@ func handler(req http.Request, w *http.ResponseWriter) {
 `
 }
 
-const c42Endpoints = 7
+// a service that ends in a run-time error for some inputs (integer division by zero): the failing request
+// is answered 500, and nothing of it may be visible to the requests that come after it
+func init() {
+	c42Services["vs/div.ego"] = `@endpoint get path="/services/vs/div/{{n}}/{{d}}"
+
+import "http"
+import "strconv"
+
+func handler(req http.Request, w *http.ResponseWriter) {
+    n, _ := strconv.Atoi(req.URL.Parts["n"])
+    d, _ := strconv.Atoi(req.URL.Parts["d"])
+    total := 0
+    w.Write(fmt.Sprintf("begin n=%d d=%d user=%v;", n, d, req.Username))
+    for i := 1; i < 6; i = i + 1 {
+        total = total + (n * i) / d
+    }
+    w.WriteHeader(200)
+    w.Write(fmt.Sprintf("n=%d d=%d total=%d user=%v", n, d, total, req.Username))
+}
+`
+}
+
+const c42Endpoints = 8
 
 var (
 	c42Lib  string
@@ -285,8 +310,20 @@ func (c42Engine) Generate(seed uint64, tier string) *simrun.Case {
 		if r.Chance(1, 3) {
 			ep = r.Intn(c42Endpoints)
 		}
-		// A = [endpoint, user, v1, v2]; all values pairwise distinct across the batch (i is mixed in)
-		c.Ops = append(c.Ops, simrun.Op{C: i + 1, K: "req", A: []int64{int64(ep), int64(r.Intn(len(c42Users))), int64(10*i + 1 + r.Intn(9)), int64(2 + r.Intn(5))}})
+		// A = [endpoint, user, v1, v2, wave]; all values pairwise distinct across the batch (i is mixed in)
+		c.Ops = append(c.Ops, simrun.Op{C: i + 1, K: "req", A: []int64{int64(ep), int64(r.Intn(len(c42Users))), int64(10*i + 1 + r.Intn(9)), int64(2 + r.Intn(5)), 0}})
+	}
+	if r.Chance(1, 2) {
+		// two waves on one server: the requests of the second wave start when the first wave has been answered
+		// (what an earlier request left behind in the server meets overlapping later requests)
+		k := 1 + r.Intn(n-1)
+		for i := k; i < n; i++ {
+			c.Ops[i].A[4] = 1
+		}
+		if r.Chance(1, 2) {
+			// ... and the first wave contains a request that ends in a run-time error
+			c.Ops[r.Intn(k)].A = []int64{7, int64(r.Intn(len(c42Users))), int64(1 + r.Intn(9)), []int64{3, 6}[r.Intn(2)], 0}
+		}
 	}
 	// swarm: in two thirds of the runs every mutex release is followed by a scheduling point (a goroutine can lose
 	// the processor right after an Unlock, before its next statement)
@@ -323,6 +360,8 @@ func c42Request(op simrun.Op) *http.Request {
 		req = httptest.NewRequest("GET", fmt.Sprintf("/services/vs/rev/w%dord%d?q=%d", v1, i, v2), nil)
 	case 6:
 		req = httptest.NewRequest("GET", fmt.Sprintf("/services/vs/bare/thing%dof%d", v1, i), nil)
+	case 7:
+		req = httptest.NewRequest("GET", fmt.Sprintf("/services/vs/div/%d/%d", v1*10+int64(i), v2%3), nil)
 	case 5:
 		req = httptest.NewRequest("GET", fmt.Sprintf("/services/factor/%d", v1*6+int64(i)), nil)
 	default:
@@ -387,8 +426,12 @@ func (c42Engine) Execute(t *testing.T, c *simrun.Case, keepLog bool) *simrun.Out
 				setupErr = err
 				return
 			}
-			for i, op := range c.Ops {
-				ref[i] = c42Serve(rt, op)
+			for wave := int64(0); wave <= 1; wave++ {
+				for i, op := range c.Ops {
+					if op.Arg(4) == wave {
+						ref[i] = c42Serve(rt, op)
+					}
+				}
 			}
 			// concurrent: fresh router (route use counters) and flushed cache again
 			services.FlushServiceCache()
@@ -397,19 +440,24 @@ func (c42Engine) Execute(t *testing.T, c *simrun.Case, keepLog bool) *simrun.Out
 				setupErr = err
 				return
 			}
-			var wg sync.WaitGroup
-			for i, op := range c.Ops {
-				i, op := i, op
-				wg.Add(1)
-				sim.Go(func() {
-					defer wg.Done()
-					r := c42Serve(rt, op)
-					mu.Lock()
-					got[i] = r
-					mu.Unlock()
-				})
+			for wave := int64(0); wave <= 1; wave++ {
+				var wg sync.WaitGroup
+				for i, op := range c.Ops {
+					if op.Arg(4) != wave {
+						continue
+					}
+					i, op := i, op
+					wg.Add(1)
+					sim.Go(func() {
+						defer wg.Done()
+						r := c42Serve(rt, op)
+						mu.Lock()
+						got[i] = r
+						mu.Unlock()
+					})
+				}
+				wg.Wait()
 			}
-			wg.Wait()
 			caches.VerifSimShutdown()
 			time.Sleep(10 * time.Minute)
 		})
@@ -456,7 +504,15 @@ func (c42Engine) Execute(t *testing.T, c *simrun.Case, keepLog bool) *simrun.Out
 	}
 	ok200 := 0
 	for i := range c.Ops {
-		if ref[i].status >= 500 || ref[i].status == 0 {
+		expectError := c.Ops[i].Arg(0)%c42Endpoints == 7 && c.Ops[i].Arg(3)%3 == 0 // the division service with d = 0
+		if expectError {
+			out.Probe("requests_ending_in_runtime_error", 1)
+			if iso[i].status < 500 {
+				out.HarnessError = fmt.Sprintf("request %d should end in a run-time error but was answered %s", i, iso[i])
+				return out
+			}
+		}
+		if (ref[i].status >= 500 || ref[i].status == 0) && !expectError {
 			out.HarnessError = fmt.Sprintf("reference (sequential) response of request %d is a server error: %s", i, ref[i])
 			return out
 		}
